@@ -230,12 +230,13 @@ fn two_deep_messages(tier: Tier) -> Vec<(String, Vec<u8>)> {
         v
     };
     let mut d1s: Vec<usize> = vec![];
-    let (s1, s2, s3) = if tier == Tier::Quick { (2, 6, 40) } else { (1, 2, 10) };
+    let (s1, s2, s3) = if tier == Tier::Quick { (3, 10, 60) } else { (1, 2, 10) };
+    let deltas: &[usize] = if tier == Tier::Quick { &[0, 2, 8, 32] } else { &[0, 1, 2, 4, 8, 16, 32] };
     d1s.extend((20..=140).step_by(s1));
     d1s.extend((150..=600).step_by(s2));
     d1s.extend((1200..=4200).step_by(s3));
     for d1 in d1s {
-        for delta in [0usize, 1, 2, 4, 8, 16, 32] {
+        for &delta in deltas {
             if delta >= d1 {
                 continue;
             }
@@ -252,9 +253,14 @@ fn two_deep_messages(tier: Tier) -> Vec<(String, Vec<u8>)> {
 
 /// names for wire positions that carry a string which error messages may quote or cut: every "round" byte offset
 /// with a 2-, 3- and 4-byte character straddling it at every alignment
-fn straddling_names() -> Vec<Vec<u8>> {
+fn straddling_names(tier: Tier) -> Vec<Vec<u8>> {
     let mut out: Vec<Vec<u8>> = vec![];
-    for b in [8usize, 10, 16, 20, 24, 30, 32, 40, 48, 50, 60, 64, 80, 100, 120, 128, 200, 250, 255, 256, 500, 512, 1000, 1024] {
+    let offsets: &[usize] = if tier == Tier::Quick {
+        &[8, 16, 20, 32, 64, 100, 128, 256, 1024]
+    } else {
+        &[8, 10, 16, 20, 24, 30, 32, 40, 48, 50, 60, 64, 80, 100, 120, 128, 200, 250, 255, 256, 500, 512, 1000, 1024]
+    };
+    for &b in offsets {
         for ch in ["\u{e9}", "\u{672c}", "\u{1F600}"] {
             for k in 1..ch.len() {
                 if k > b {
@@ -275,7 +281,7 @@ fn hostile_messages(tier: Tier) -> Vec<(String, Vec<u8>)> {
     // strings supplied by the wire that diagnostics quote: method names in service types (valid, typed by a
     // non-function, duplicated, unsorted), method names of function values, text values (also cut short in the
     // middle of a character)
-    for (ni, name) in straddling_names().into_iter().enumerate() {
+    for (ni, name) in straddling_names(tier).into_iter().enumerate() {
         let l = leb::enc_u64(name.len() as u64);
         let func = [0x6au8, 0x00, 0x00, 0x00]; // entry 0: func () -> ()
         let svc = |methods: &[(&[u8], u8)]| {
@@ -879,7 +885,7 @@ pub fn run(tier: Tier, replay: Option<&str>, rest: &[String]) -> i32 {
     finish(
         &ctx,
         rep,
-        "inputs: all byte strings DIDL+s with |s|<=2 (thorough 3) over all 256 bytes and |s|<=4 (thorough 5) over a 24-byte alphabet of opcodes/counts/flags; every 1-byte deviation of valid messages of a small scope; hostile families (huge and over-long LEB128 counts at every count position of header and values, zero-sized element bombs up to 2^32-1 elements, vectors of every fixed-width element type and texts whose byte size count x width lies within 32 bytes of 2^63 and 2^64, recursive tables without progress, future-typed values with every small byte count against every shortfall of the remaining input, nesting depth 1..20000 of opt/vec/record/variant chains in the table and of recursive values; wire-supplied strings that diagnostics quote - service method names (valid, typed by a non-function, duplicated, unsorted), method names of function values and text values - with a 2-, 3- or 4-byte character straddling every round byte offset 8..1024 at every alignment, also cut inside the character; two and three values of type T = opt T nested d1, d2 deep in one message, d1 sweeping 20..4200 and d2 = d1 - {0,1,2,4,8,16,32}, consumed as decode/decode, skip/decode, decode/skip) on 256 KiB / 1 MiB / 8 MiB stacks; each input x 20 native targets (incl. Vec of 2-, 4- and 8-byte numbers) + 6 untyped targets x 8-10 decoder configurations (quotas none/0/1/10/100/10000, skipping quota, full_error_message, max_type_len), in checked and release builds. Oracle: every call returns Ok or Err (a panic or a dead worker process is a violation, bisected to the input); under a decoding quota q peak allocation <= 4 MiB + 64*|input| + 64*q (counting global allocator); no progress while the worker consumes 20 s of CPU time is non-termination; checked and release agree on the outcome digest. Non-trivial = calls that returned Ok.",
+        "inputs: all byte strings DIDL+s with |s|<=2 (thorough 3) over all 256 bytes and |s|<=4 (thorough 5) over a 24-byte alphabet of opcodes/counts/flags; every 1-byte deviation of valid messages of a small scope; hostile families (huge and over-long LEB128 counts at every count position of header and values, zero-sized element bombs up to 2^32-1 elements, vectors of every fixed-width element type and texts whose byte size count x width lies within 32 bytes of 2^63 and 2^64, recursive tables without progress, future-typed values with every small byte count against every shortfall of the remaining input, nesting depth 1..20000 of opt/vec/record/variant chains in the table and of recursive values; wire-supplied strings that diagnostics quote - service method names (valid, typed by a non-function, duplicated, unsorted), method names of function values and text values - with a 2-, 3- or 4-byte character straddling round byte offsets 8..1024 (quick: nine of them; thorough: 24) at every alignment, also cut inside the character; two and three values of type T = opt T nested d1, d2 deep in one message, d1 sweeping 20..4200 (quick: steps 3 / 10 / 60 per stack region and d2 = d1 - {0,2,8,32}; thorough: steps 1 / 2 / 10 and d2 = d1 - {0,1,2,4,8,16,32}), consumed as decode/decode, skip/decode, decode/skip) on 256 KiB / 1 MiB / 8 MiB stacks; each input x 20 native targets (incl. Vec of 2-, 4- and 8-byte numbers) + 6 untyped targets x 8-10 decoder configurations (quotas none/0/1/10/100/10000, skipping quota, full_error_message, max_type_len), in checked and release builds. Oracle: every call returns Ok or Err (a panic or a dead worker process is a violation, bisected to the input); under a decoding quota q peak allocation <= 4 MiB + 64*|input| + 64*q (counting global allocator); no progress while the worker consumes 20 s of CPU time is non-termination; checked and release agree on the outcome digest. Non-trivial = calls that returned Ok.",
         &["work proportional to the quota is decided through allocation and termination, not timing", "unmetered runs of explicit element bombs are restricted to 1000 elements"],
         json!({}),
     )
